@@ -131,6 +131,44 @@ theorem offset_shifts_minutes (x : ℝ) (k : ℤ) :
   simp only [C11.totMin, C11.secOf, e1, e2, Int.floor_add_intCast]
   exact ⟨trivial, by omega⟩
 
+/-- the clock reading wraps every 1440 minutes -/
+theorem clock_periodic (M S : ℤ) (j : ℤ) : C11.clock (M + 1440 * j) S = C11.clock M S := by
+  simp only [C11.clock]
+  have h1 : (M + 1440 * j) / 60 % 24 = M / 60 % 24 := by omega
+  have h2 : (M + 1440 * j) % 60 = M % 60 := by omega
+  rw [h1, h2]
+
+theorem specTime_periodic (r : Round) (pr : Prayer) (M S j : ℤ) :
+    C11.specTime r pr (M + 1440 * j) S = C11.specTime r pr M S := by
+  have e : ∀ c : ℤ, (if c ≤ S then M + 1440 * j + 1 else M + 1440 * j) = (if c ≤ S then M + 1 else M) + 1440 * j := by
+    intro c; split <;> ring
+  cases r <;> simp only [C11.specTime, e, clock_periodic] <;> (try split) <;> simp [clock_periodic]
+
+/-- **a minute offset of k whole minutes shifts exactly that prayer's reported time by exactly k
+    minutes (modulo 24 h), in every rounding mode**: over ℝ, with the offset of prayer `pr` raised by
+    k, the conversion of the same hour is the stated function of the unrounded minute count moved
+    by k, seconds unchanged -/
+theorem offset_moves_clock (p : Params ℝ) (pr : Prayer) (hour : ℝ) (k : ℤ) (q : Params ℝ)
+    (hq : q.minutes pr = p.minutes pr + k) (hr : q.round = p.round)
+    (hlo : -2400000 ≤ hour + p.minutes pr / 60) (hhi : hour + p.minutes pr / 60 < 3999999999)
+    (hlo' : -2400000 ≤ hour + q.minutes pr / 60) (hhi' : hour + q.minutes pr / 60 < 3999999999) :
+    ∃ M S : ℤ, hourToTime p pr hour = .ok (C11.specTime p.round pr M S) ∧
+      hourToTime q pr hour = .ok (C11.specTime p.round pr (M + k) S) := by
+  obtain ⟨n1, _, _, _, h1⟩ := C11.hourToTime_spec p pr hour hlo hhi
+  obtain ⟨n2, _, _, _, h2⟩ := C11.hourToTime_spec q pr hour hlo' hhi'
+  refine ⟨_, _, h1, ?_⟩
+  rw [h2, hr]
+  -- x_q = x_p + k/60 + 24 (n2 - n1)
+  have e : hour + q.minutes pr / 60 + 24 * (n2 : ℝ) =
+      (hour + p.minutes pr / 60 + 24 * (n1 : ℝ)) + ((k + 1440 * ((n2 : ℤ) - n1) : ℤ) : ℝ) / 60 := by
+    rw [hq]; push_cast; ring
+  rw [e]
+  obtain ⟨a, b⟩ := offset_shifts_minutes (hour + p.minutes pr / 60 + 24 * (n1 : ℝ)) (k + 1440 * ((n2 : ℤ) - n1))
+  rw [a, b]
+  have : C11.totMin (hour + p.minutes pr / 60 + 24 * ↑n1) + (k + 1440 * ((n2 : ℤ) - ↑n1)) =
+      (C11.totMin (hour + p.minutes pr / 60 + 24 * ↑n1) + k) + 1440 * ((n2 : ℤ) - n1) := by ring
+  rw [this, specTime_periodic]
+
 -- non-vacuity: a concrete offset map that changes only Asr's offset satisfies `other_offset_irrelevant` for Fajr
 example (p : Params Float) : (fun pr => if pr = Prayer.Asr then 7.0 else p.minutes pr) Prayer.Fajr = p.minutes .Fajr := by
   simp
